@@ -563,6 +563,20 @@ impl FuChecker {
                 v.push(FuOp::Advance { secs: DAY });
                 v.push(FuOp::Claim { u: A, until: None });
             }
+            "F14" => {
+                // A holds lp0 only and has claimed; farms run on lp0 and on lp1, which nobody has ever staked; two epochs later A
+                // becomes the first staker of lp1 ever (the contract's earliest lp1 snapshot is later than A's claim cursor + 1)
+                v.push(pos(A, 0, 1000, DAY));
+                v.push(farm_op(fee, C, 0, Some(1), Some(9), ("uusdc", 8000), Some("a0")));
+                v.push(farm_op(fee, C, 1, Some(1), Some(9), ("uusdc", 8000), Some("a1")));
+                v.push(FuOp::Advance { secs: DAY });
+                v.push(FuOp::Claim { u: A, until: None });
+                v.push(FuOp::Advance { secs: DAY });
+                v.push(FuOp::Advance { secs: DAY });
+                v.push(pos(A, 1, 700, DAY));
+                v.push(FuOp::Advance { secs: DAY });
+                v.push(FuOp::Advance { secs: DAY });
+            }
             "F12" => {
                 // the LP token is at its limit of concurrent farms (2) and every farm ever created had an explicit identifier
                 v.push(pos(A, 0, 1000, DAY));
